@@ -83,6 +83,13 @@ int parse_instruction_cp1610(AsmContext *asm_context, char *instr)
         return -1;
       }
 
+      // instr and instr_case are TOKENLEN bytes.
+      if (strlen(instr) + 2 > TOKENLEN || strlen(instr_case) + 2 > TOKENLEN)
+      {
+        print_error_unexp(asm_context, token);
+        return -1;
+      }
+
       strcat(instr, "@");
       strcat(instr_case, "@");
       continue;
